@@ -59,7 +59,11 @@ pub enum Ev {
 
 #[derive(Clone, Copy, Debug, PartialEq, Eq)]
 pub enum BusyMode {
-    /// BUSY answers `false` to both is_high and is_low: no wait ever blocks, no polarity matters.
+    /// The line follows the controller model in datasheet polarity like `Physical`; the name records
+    /// the intent that the rig leaves the busy generator at its defaults (every pulse has length 0,
+    /// except the power-off pulse floor of panels whose driver waits for the start of that pulse),
+    /// so no wait ever blocks. (It used to answer `false` to whichever pin question was asked, which
+    /// made a driver that reads the other pin method for the same level spin for ever: false alarm.)
     Never,
     /// BUSY follows the controller model's generator in datasheet polarity.
     Physical,
@@ -261,11 +265,7 @@ impl Board {
             _ => 0,
         };
         match self.busy_mode {
-            BusyMode::Never => {
-                self.push(Ev::Poll { pin, ask_high, answer: false, chip_busy: false });
-                false
-            }
-            BusyMode::Physical => {
+            BusyMode::Never | BusyMode::Physical => {
                 let (busy, low_active) = self.chips[chip_idx].busy_poll();
                 // line level: asserted level is low when low_active
                 let level_high = if low_active { !busy } else { busy };
